@@ -36,7 +36,7 @@ def families(tier, seed):
             cases.append(dict(tag=tag, features=feats, model=model, vec=vec, seed=seed + 1, style=0))
     # "the returned argument values are the declared (or OVERRIDDEN) values": a few override scenarios (C07 has the full set)
     for tag, feats, model, ops in gen.c07_cases():
-        if tag.split("-")[0] in ("U1", "U3", "U4", "U8"):
+        if tag.split("-")[0] in ("U1", "U3", "U4", "U8", "U9", "U22"):
             for vec in (False, True):
                 cases.append(dict(tag=tag, features=feats, kind="overrides", model=model, ops=ops, vec=vec, seed=seed))
     m_e = {t: mm for t, f, mm, o in gen.c07_cases()}["U1-single-node-const"]
